@@ -1,5 +1,6 @@
 """Runs a generated pipeline on a generated rule with the real code and reports, per processing item,
 what the rule / detection items / field names / bookkeeping look like after it."""
+from impl.excname import exc_name
 import re
 from sigma.rule import SigmaRule, SigmaDetection, SigmaDetectionItem
 from sigma.processing.pipeline import ProcessingPipeline
@@ -17,8 +18,8 @@ def err(e):
     names = [c.__name__ for c in type(e).__mro__]
     for n, t in ERR:
         if n in names:
-            return [t, isinstance(e, SigmaError), type(e).__name__, str(e)[:160]]
-    return [98, isinstance(e, SigmaError), type(e).__name__, str(e)[:160]]
+            return [t, isinstance(e, SigmaError), exc_name(e), str(e)[:160]]
+    return [98, isinstance(e, SigmaError), exc_name(e), str(e)[:160]]
 
 # ---------------------------------------------------------------------------------------
 def rx_text(p):
@@ -167,7 +168,7 @@ def enc_expr(e):
     if isinstance(e, ConditionNOT): return ["not", enc_expr(e.condition)]
     if isinstance(e, ConditionAND): return ["and", enc_expr(e.left), enc_expr(e.right)]
     if isinstance(e, ConditionOR): return ["or", enc_expr(e.left), enc_expr(e.right)]
-    return ["?", type(e).__name__]
+    return ["?", exc_name(e)]
 
 def run_expr(case):
     try:
